@@ -26,7 +26,9 @@ CLAIM = {
             "input's outpoint txid and the output index exists, a sender-supplied witness_utxo is compared as a "
             "whole TxOut (or every field of it) with that proven output and a mismatch is refused, otherwise "
             "witness_utxo is assigned from it, and the encoder writes exactly the wrapped PSBT. "
-            "(R19.5) no size limit handed to read_to_limit / take in a decoder is below MAX_MESSAGE_SIZE. "
+            "(R19.5) no size limit handed to read_to_limit / take in a decoder is below MAX_MESSAGE_SIZE; (R19.6) a "
+            "length-framed read fills the whole frame: the protocol crate never calls the partial Read::read, the raw "
+            "frame readers (read_raw, read_serial_request_header) use read_exact. "
             "Does not decide value-level round-trip equality (runtime values).",
     "note": "rustc const evaluation of associated consts; bitcoin_consensus_derive / serde_bolt primitive codecs trusted",
     "technique": "static analysis: registry/exhaustiveness cross-check + encode/decode sibling agreement over MIR",
@@ -47,6 +49,8 @@ def run(ctx):
     r193(ctx, serbolt, types)
     r194(ctx)
     r195(ctx)
+    r196(ctx)
+
 
 
 def short(t):
@@ -573,3 +577,25 @@ def r195(ctx):
                    f"carries up to {mx} bytes: a larger object that the encoder happily writes is cut short and no longer decodes",
                    where=f"{b.file}:{c.line}", sample=f"limit {shown}")
     ctx.floor("R19.5", "size-limited reads in vls-protocol decoders", n, 1)
+
+
+def r196(ctx):
+    ctx.rule("R19.6", "length-framed reads fill the whole frame: no partial Read::read in the protocol crate; the raw frame "
+                      "readers use read_exact (a short read would deliver a zero-padded message and desynchronise the stream)")
+    p = ctx.prog
+    n_exact = 0
+    for b in p.bodies.values():
+        if b.d.krate != "vls_protocol" or R.is_test_util(b.name) or b.d.is_bin:
+            continue
+        for bi, c in b.calls():
+            names = [(c.callee.name if c.callee else ""), (c.decl.name if c.decl else "")]
+            if any(nm.endswith("::Read::read") for nm in names):
+                n_exact += 1 if b.name.startswith(P + "msgs::read_") else 0
+                ctx.ob("R19.6", False, f"{R.owner_name(p, b)}/partial-read",
+                       f"`{R.owner_name(p, b)}` reads with the partial `Read::read` (line {c.line}): the result may cover only part of "
+                       "the buffer sized from the length prefix, the rest stays zero and the remaining bytes corrupt the next frame",
+                       where=f"{b.file}:{c.line}")
+            if any(nm.endswith("::Read::read_exact") for nm in names) and b.name.startswith(P + "msgs::read_"):
+                n_exact += 1
+                ctx.ob("R19.6", True, f"{b.name}/read-exact", "", where=f"{b.file}:{c.line}", sample="read_exact into the frame buffer")
+    ctx.floor("R19.6", "read calls in the raw frame readers of msgs.rs", n_exact, 2)
